@@ -985,6 +985,8 @@ class Patron(object):
                 port = splits.port
             except ValueError as ex:  # malformed such as unbalanced [ or bad port
                 return False
+            if not hostname:  # malformed such as https:///path
+                return False
             scheme = splits.scheme
             scheme = 'https' if scheme.lower() == 'https' else 'http'
             if scheme == 'https':
@@ -993,7 +995,10 @@ class Patron(object):
             else:
                 secured = False # non tls socket connection
                 defaultPort = 80
-            hostname, port = httping.normalizeHostPort(hostname, port=port, defaultPort=defaultPort)
+            try:
+                hostname, port = httping.normalizeHostPort(hostname, port=port, defaultPort=defaultPort)
+            except httping.InvalidURL as ex:  # malformed such as letters after last colon of [v1.a:b]
+                return False
             path = splits.path or '/'  # location without path such as http://host:port
             query = splits.query
             fragment = splits.fragment
